@@ -272,7 +272,7 @@ Qed.
 Lemma pg_ok_len pg : pg_ok pg -> zlen pg <> 0 -> zlen pg = 32.
 Proof. intros [[H|H] _] Hn; [subst pg; exfalso; apply Hn; reflexivity|exact H]. Qed.
 Lemma pg_ok_len_le pg : pg_ok pg -> zlen pg <= 32.
-Proof. intros [[H|H] _]; [subst pg; cbn; lia|lia]. Qed.
+Proof. intros [[H|H] _]; [subst pg; change (zlen (@nil W)) with 0; lia|lia]. Qed.
 
 Lemma cell_ext s s' i : pages s' = pages s -> minPage s' = minPage s -> cell s' i = cell s i.
 Proof. intros H1 H2. unfold cell. rewrite H1, H2. reflexivity. Qed.
@@ -296,7 +296,7 @@ Proof.
   - constructor.
   - intros _ k. apply pgat_nil.
   - intros H. contradiction.
-  - unfold PL. cbn. lia.
+  - unfold PL. change (zlen (@nil (list W))) with 0. lia.
 Qed.
 Lemma pget_new i : pget new_pag i = w0.
 Proof.
@@ -531,7 +531,7 @@ Proof.
   { apply zlen_set_nth. unfold zlen in Hoff. lia. }
   assert (Hlen' : zlen pg' = 32) by (unfold pg'; rewrite zlen_upd_line by exact Hl; exact Hlen).
   assert (Hne : minPage s <> MaxInt64).
-  { intros E. pose proof (inv_sent s H E off) as Hn. fold pg in Hn. rewrite Hn in Hlen. cbn in Hlen. lia. }
+  { intros E. pose proof (inv_sent s H E off) as Hn. fold pg in Hn. rewrite Hn in Hlen. change (zlen (@nil W)) with 0 in Hlen. lia. }
   cbn [with_pages pages minPage buffer trigger].
   split.
   { constructor; cbn [with_pages pages minPage buffer].
@@ -540,7 +540,7 @@ Proof.
       pose proof (inv_pg s H off) as [_ Hnn]. fold pg in Hnn.
       destruct (j =? line_index i); [apply wnonneg_add; [apply Hnn|exact Hc]|apply Hnn].
     - intros k Hk. rewrite Hpg in Hk. destruct (Z.eqb_spec k off) as [Ek|Ek]; [|apply (inv_alloc s H _ Hk)].
-      subst k. apply (inv_alloc s H). fold pg. intros En. rewrite En in Hlen. cbn in Hlen. lia.
+      subst k. apply (inv_alloc s H). fold pg. intros En. rewrite En in Hlen. change (zlen (@nil W)) with 0 in Hlen. lia.
     - apply (inv_buf s H).
     - intros E. contradiction.
     - intros _. rewrite Hzl. apply (inv_bnd s H Hne).
@@ -684,7 +684,7 @@ Qed.
    out-of-fuel branch is never reached and more fuel changes nothing *)
 Lemma span_page_rest_le p l : (length (snd (span_page p l)) <= length l)%nat.
 Proof.
-  induction l as [|x tl IH]; [cbn; lia|].
+  induction l as [|x tl IH]; [cbn [span_page snd length]; lia|].
   cbn [span_page]. destruct (page_index x =? p).
   - destruct (span_page p tl) as [a b]. cbn [fst snd length] in *. lia.
   - cbn [snd]. lia.
